@@ -387,7 +387,7 @@ func (e *Exception) String() string {
 	}
 	var b bytes.Buffer
 	if e.val != nil {
-		b.WriteString(e.val.String())
+		b.WriteString(e.valueString())
 		b.WriteByte('\n')
 	}
 	e.writeFullStack(&b)
@@ -400,10 +400,26 @@ func (e *Exception) Error() string {
 	}
 	var b bytes.Buffer
 	if e.val != nil {
-		b.WriteString(e.val.String())
+		b.WriteString(e.valueString())
 	}
 	e.writeShortStack(&b)
 	return b.String()
+}
+
+// valueString converts the thrown value to a string for Error() and String(). Converting an object runs script
+// (@@toPrimitive, toString, valueOf) which may itself throw, or there may be nothing to call (Object.create(null)):
+// that must not turn the embedder's err.Error() into a Go panic.
+func (e *Exception) valueString() (s string) {
+	obj, ok := e.val.(*Object)
+	if !ok {
+		return e.val.String()
+	}
+	if ex := obj.runtime.vm.try(func() {
+		s = obj.String()
+	}); ex != nil {
+		s = "[object " + obj.ClassName() + "]"
+	}
+	return
 }
 
 func (e *Exception) Value() Value {
